@@ -75,3 +75,30 @@ def check_c02(tier, seed):
         return nscheck.finish(run, "C02")
     finally:
         run.close()
+
+
+def check_c04(tier, seed):
+    run = nscheck.NsRun("C04", tier, seed)
+    try:
+        run.build()
+        q = tier == "quick"
+        edges = run.generate("symq", 1, "symq", names3=not q)
+        sample_edges(run, edges)
+        for t in ("osfs", "memfs"):
+            run.replay(edges, t, names="a,b,c,s,f,u,zz")
+        # long hist lines: one TLC worker keeps them intact
+        edges = run.generate("symchain", 1, "symchain", workers=1)
+        for t in ("osfs", "memfs"):
+            run.replay(edges, t, names="t,l1,l2")
+        edges = run.generate("nssym", 2 if q else 3, "nssym")
+        for t in ("osfs", "memfs"):
+            run.replay(edges, t)
+        for k, (n, ln) in enumerate([(16, 120)] if q else [(200, 200), (200, 200)]):
+            run.random(n, ln, sym=True, own=False, seed=seed * 13 + k)
+        run.cov["universe"] = "every link graph over %d names in /w (absent, file, directory, link to sibling / ../w/x / /w/x / s/f / s/u / s, " \
+                              "self-loops and 2- and 3-cycles included) next to a fixed directory /w/s x every query path of <=4 components x " \
+                              "16 operations; chains of 1,2,39,40,41,64,65,255,256 links; histories with symlink calls" % (2 if q else 3)
+        run.cov["exhaustive"] = True
+        return nscheck.finish(run, "C04")
+    finally:
+        run.close()
